@@ -28,14 +28,28 @@ def prop_module(pid):
     return importlib.import_module(f"mc.props.{pid.lower()}")
 
 
+_INIT_ERROR = None
+
+
 def _worker_init():
+    """Patch clocks and import redress from the working tree.  A failure (e.g. the tree does
+    not import) is remembered and reported by every task instead of killing the worker, which
+    would make the pool respawn workers for ever."""
+    global _INIT_ERROR
     sys.dont_write_bytecode = True
-    from . import env
-    env.install()
+    try:
+        from . import env
+        env.install()
+    except BaseException as e:  # noqa: BLE001
+        _INIT_ERROR = f"cannot import redress from the working tree: {type(e).__name__}: {e}"
 
 
 def _worker_run(args):
     pid, task, seed = args
+    if _INIT_ERROR is not None:
+        r = new_result()
+        r["error"] = _INIT_ERROR
+        return r
     try:
         mod = prop_module(pid)
         res = mod.run_task(task, seed)
